@@ -541,6 +541,7 @@ int parse_instruction_f100_l(AsmContext *asm_context, char *instr)
             if (operands[0].type != OPERAND_IMMEDIATE)
             {
               print_error_illegal_operands(asm_context, instr);
+              return -1;
             }
 
             if (check_range(asm_context, "Immediate", operands[0].value, 0, 1024) == -1) { return -1; }
